@@ -58,7 +58,7 @@ BadBuilders ==
    \cup { I("Pyramid", <<p, Add(p, u), Add(p, Ind(u)), Add(p, Cross(u, Ind(u)))>>, <<>>, 0, FALSE, TRUE) : p \in SomeP, u \in SomeU }
 
 \* face sets that are not closed polyhedra: a catalogue body with some faces left out (n = bitmask-like index of the variant)
-OpenBodies == { I("Polyhedron", <<>>, <<>>, n, FALSE, n = 0) : n \in 0..4 }
+OpenBodies == { I("Polyhedron", <<>>, <<>>, n, FALSE, n = 0) : n \in 0..7 }
 
 Helpers ==
    { I("SegFromList", <<>>, <<>>, 0, FALSE, FALSE) }
